@@ -12,14 +12,14 @@ use std::collections::BTreeMap;
 use std::time::Duration;
 
 pub fn meta(m: &mut PropMeta) {
-    m.rule = "a pool of 27 file texts spread over nested and sibling modules (cross-file type references, alias chains, inheritance, deprecated uses, doc links that resolve only when another file is present, a redefinition across files, a containment cycle across files, a dictionary key struct, and a definition named like a nested module of another file); EVERY subset of 2..4 files (quick) / 2..5 files (thorough) x ALL permutations of the subset, compiled in-process; every compilation is executed twice (fresh hash seeds) and must give identical diagnostics and ASTs; across the permutations of one subset: accepted-or-rejected is constant and, when accepted, every file's observed AST and the multiset of warnings (code, message, file, span) are constant. Process level: 3-file programs x every source/reference assignment x all 6 orders through the real binary with a capturing generator: exit status constant, warning multiset constant, and the decoded request content of every file constant (only the split and order change); every scenario repeated under hash seeds VERIF_HASH_SEED = 0..3 (quick) / 0..31 (thorough) via an LD_PRELOAD getrandom shim: stderr, stdout and the captured request must be byte-identical. non-trivial = the subset's files refer to each other; distinct = distinct (subset, order).";
+    m.rule = "a pool of 29 file texts spread over nested and sibling modules (cross-file type references, alias chains, inheritance, deprecated uses, doc links that resolve only when another file is present, a redefinition across files, a containment cycle across files, a dictionary key struct, and a definition named like a nested module of another file); EVERY subset of 2..4 files (quick) / 2..5 files (thorough) x ALL permutations of the subset, compiled in-process; every compilation is executed twice (fresh hash seeds) and must give identical diagnostics and ASTs; across the permutations of one subset: accepted-or-rejected is constant and, when accepted, every file's observed AST and the multiset of warnings (code, message, file, span) are constant. Process level: 3-file programs x every source/reference assignment x all 6 orders through the real binary with a capturing generator: exit status constant, warning multiset constant, and the decoded request content of every file constant (only the split and order change); every scenario repeated under hash seeds VERIF_HASH_SEED = 0..3 (quick) / 0..31 (thorough) via an LD_PRELOAD getrandom shim: stderr, stdout and the captured request must be byte-identical. non-trivial = the subset's files refer to each other; distinct = distinct (subset, order).";
     m.explanation = "exhaustive subsets x permutations x source/reference assignments; differential oracle (no expected value needed); controlled hash seeds";
-    m.quick_bound = "all subsets of 2..4 of 27 files x all permutations; 4 hash seeds";
-    m.thorough_bound = "all subsets of 2..5 of 27 files x all permutations; 32 hash seeds";
+    m.quick_bound = "all subsets of 2..4 of 29 files x all permutations; 4 hash seeds";
+    m.thorough_bound = "all subsets of 2..5 of 29 files x all permutations; 32 hash seeds";
     m.assumptions.push("the hash-seed space cannot be enumerated: seeds are a controlled, replayable sample; the permutation / assignment part is exhaustive");
 }
 
-const POOL: [&str; 27] = [
+const POOL: [&str; 29] = [
     "module A\nstruct S0 { x: int32 }\nenum E0 : uint8 { X }\n",
     "module A\nstruct S1 { s: S0, e: E0? }\n",
     "module A::B\nstruct T { s: S0, u: A::S1 }\n",
@@ -52,6 +52,9 @@ const POOL: [&str; 27] = [
     "module A::B2\ncustom X\n",
     "module A::B3\ntypealias Y = int32\n",
     "module A::B4\nenum W { Q }\n",
+    // every compilation of this family is given -D GIVEN: a file that undefines it, and a file that tests it
+    "#undef GIVEN\n#define OTHER\nmodule P2\nstruct PE {}\n",
+    "module P2\n#if GIVEN\nstruct PF { x: int32 }\n#endif\n#if OTHER\nstruct PH {}\n#endif\nstruct PG { f: PF }\n",
 ];
 
 /// files whose presence together makes a definition collide with a nested module of another file
@@ -106,7 +109,10 @@ struct Outcome {
 
 fn compile_order(order: &[usize]) -> Result<Outcome, (String, String)> {
     let texts: Vec<&str> = order.iter().map(|i| POOL[*i]).collect();
-    let (_ast_kept_alive, files, diags) = compile_texts(&texts, None)?; // the files point into the AST
+    // every compilation is given the symbol GIVEN on the command line (pool files #27 and #28 undefine / test it)
+    let mut options = slicec::slice_options::SliceOptions::default();
+    options.defined_symbols = vec!["GIVEN".to_string()];
+    let (_ast_kept_alive, files, diags) = compile_texts(&texts, Some(&options))?; // the files point into the AST
     let map_file = |f: &Option<String>| f.as_ref().and_then(|f| f.trim_start_matches("string-").parse::<usize>().ok()).map(|i| order[i]);
     let accepted = !diags.iter().any(|d| d.level == "error");
     let mut trees = BTreeMap::new();
@@ -139,7 +145,7 @@ impl Permutations {
 }
 impl Family for Permutations {
     fn name(&self) -> String {
-        format!("permutations/{} subsets of the 27-file pool x all permutations, each compiled twice", self.subsets.len())
+        format!("permutations/{} subsets of the 29-file pool x all permutations, each compiled twice", self.subsets.len())
     }
     fn len(&self) -> u64 {
         self.subsets.len() as u64
@@ -161,7 +167,7 @@ impl Family for Permutations {
             "member-named-like-definition-in-nested-module-of-another-file"
         } else if subset.contains(&21) && subset.contains(&22) {
             "inheritance-loop-in-another-file"
-        } else if subset.contains(&17) && (subset.contains(&18) || subset.contains(&19)) {
+        } else if (subset.contains(&17) && (subset.contains(&18) || subset.contains(&19))) || (subset.contains(&27) && subset.contains(&28)) {
             "preprocessor-symbol-defined-in-another-file"
         } else {
             "no-module-definition-collision"
